@@ -199,6 +199,22 @@ def emit_module(modname: str, fnames: list[str]) -> tuple[str, dict]:
             + ["(ns.getD %d 0)" % nums.index(p) for p, _ in r["params"]])
         wrap = "Sum.inl" if r["ret"] == "Rat" else "Sum.inr"
         cases.append(f"  | {lstr(f)} => some ({wrap} ({q(f)} {call}))")
+    # the same rules wired by NAME: every argument is read from an environment under the argument's own name, the way
+    # the dependency graph connects the rules; `Consistent` says that the environment holds, under each rule's column
+    # name, what the rule returns.  Theorems stated on these follow the wiring of the CURRENT source (a rule that reads
+    # another column than its partner rule no longer unifies with it).
+    wired, fields = [], []
+    for f, r in meta.items():
+        call = " ".join([(f"(ρ {lstr(a)})" if t == "Rat" else f"(β {lstr(a)})") for a, t in r["args"]]
+                        + [f"(ρ {lstr(p)})" for p, _ in r["params"]])
+        wired.append(f"/-- `{f}` with its arguments taken from the columns of their names -/\n"
+                     f"def {q(f)}.w (ρ : String → Rat) (β : String → Bool) : {r['ret']} := {q(f)} {call}\n")
+        dag = reg[f]["dag"]
+        fields.append(f"  {q(f)} : {'ρ' if r['ret'] == 'Rat' else 'β'} {lstr(dag)} = {q(f)}.w ρ β")
+    wired_text = "\n/-! ### wiring by argument name -/\nset_option linter.unusedVariables false\n\n" + "\n".join(wired) + \
+        "\n/-- the environment holds, under every modelled rule's column name, the value the rule returns for the columns it reads -/\n" \
+        "structure Consistent (ρ : String → Rat) (β : String → Bool) : Prop where\n" + "\n".join(fields) + "\n"
+    out = out + [wired_text]
     text = HEADER + f"import GettsimVerif.Core.Basic\nnamespace GV.Gen.{modname}\n\n" + "\n".join(out) + \
         "\n/-- evaluation by name for the correspondence runs: rational arguments (then parameter paths) and Boolean arguments in order -/\n" \
         "def dispatch (name : String) (ns : List Rat) (bs : List Bool) : Option (Sum Rat Bool) :=\n  match name with\n" + \
